@@ -271,10 +271,10 @@ func Run(tier string, seed int64, outDir string) *common.Meta {
 	nontrivial := 0
 	for i, c := range configs {
 		names, tags := regNames[c.Registry], regTags[c.Registry]
-		// CLI dialect: raw split
+		// CLI dialect: split at commas, blanks around an element dropped (as in the analyzer)
 		en := []string{}
 		if c.Enable != nil {
-			en = strings.Split(*c.Enable, ",")
+			en = trimSplit(*c.Enable)
 		} else {
 			for j, n := range names {
 				if noOptin(tags[j]) {
@@ -284,7 +284,7 @@ func Run(tier string, seed int64, outDir string) *common.Meta {
 		}
 		dis := []string{""}
 		if c.Disable != nil {
-			dis = strings.Split(*c.Disable, ",")
+			dis = trimSplit(*c.Disable)
 		}
 		var want []string
 		for j, n := range names {
@@ -484,7 +484,7 @@ func endToEnd(meta *common.Meta, tier string, seed int64, outDir string, names [
 	if tier == "thorough" {
 		n = 150
 	}
-	alpha := []string{"appendAssign", "hugeParam", "#diagnostic", "#style", "#performance", "#experimental", "#opinionated", "#security", "unknown", "", "sloppyLen", "ruleguard"}
+	alpha := []string{"appendAssign", "hugeParam", "#diagnostic", "#style", "#performance", "#experimental", "#opinionated", "#security", "unknown", "", "sloppyLen", "ruleguard", " sloppyLen", "#style ", " #performance"}
 	cfgs := []config{{false, nil, nil, "real"}, {true, nil, nil, "real"}, {false, sp("unknown"), nil, "real"}, {true, nil, sp("#diagnostic,#style,#performance"), "real"}}
 	// near-miss spellings of keys (a tag word without '#', a checker name with '#')
 	cfgs = append(cfgs, config{false, sp("style"), nil, "real"}, config{true, nil, sp("experimental,#sloppyLen,##style"), "real"})
@@ -508,7 +508,7 @@ func endToEnd(meta *common.Meta, tier string, seed int64, outDir string, names [
 	for _, c := range cfgs {
 		en := []string{}
 		if c.Enable != nil {
-			en = strings.Split(*c.Enable, ",")
+			en = trimSplit(*c.Enable)
 		} else {
 			for j, nme := range names {
 				if noOptin(tags[j]) {
@@ -518,7 +518,7 @@ func endToEnd(meta *common.Meta, tier string, seed int64, outDir string, names [
 		}
 		dis := []string{""}
 		if c.Disable != nil {
-			dis = strings.Split(*c.Disable, ",")
+			dis = trimSplit(*c.Disable)
 		}
 		var want []string
 		for j, nme := range names {
@@ -674,6 +674,15 @@ func endToEnd(meta *common.Meta, tier string, seed int64, outDir string, names [
 	ran += inertOutOfDomain(meta, ws, env, bin)
 	meta.Distribution["end_to_end_runs"] = ran
 	os.RemoveAll(ws)
+}
+
+// trimSplit is the property's reading of a key list: elements separated by commas, blanks around them insignificant.
+func trimSplit(s string) []string {
+	parts := strings.Split(s, ",")
+	for k := range parts {
+		parts[k] = strings.TrimSpace(parts[k])
+	}
+	return parts
 }
 
 // hasPadding: some element of the comma-separated list changes under strings.TrimSpace
